@@ -67,9 +67,14 @@ CLAIMED = {
               "untransformed path); a one-sheet cone whose axis ends up along ±x/±y/±z gets the apex-plane side that "
               "accounts for the direction of the axis (flipped_cone_*, the F7 repair). The model is compared with the "
               "code on transformed cards of every non-torus mnemonic under identity / permutation / Pythagorean / "
-              "generic rotations. TR-card spellings (3/5/6/9/12/13 entries, J placeholders, degrees), matrix "
-              "completion (normalize_matrix*, adjust_matrix), TRCL on cells, implicit surfaces 1000·cell+surface, "
-              "tilted tori and tilted cones are decided by the Lean spec monitor on probe decks, not by theorems."),
+              "generic rotations. TR cards: two given rows or columns are completed by the vector "
+              "product to a proper rotation reproducing every supplied entry (two_rows_completed, two_columns_completed, "
+              "completed_matrix_is_rotation), a full proper rotation is kept as written (adjust_keeps_rotation, "
+              "full_rotation_kept), m ≠ 1 is rejected, three entries are a displacement; the model of normalize_transform "
+              "(all forms: 3/5/6/9/12/13 entries, J placeholders, adjust_matrix) is compared with the code and the "
+              "completed matrix checked to be a rotation reproducing the supplied entries. The one-row (3) and "
+              "row+column (5) completions, degrees → cosines, TRCL on cells, implicit surfaces 1000·cell+surface, tilted "
+              "tori and tilted cones are decided by correspondence and the Lean spec monitor, not by theorems."),
         design_ref='§8 C04'),
     'C05': dict(
         technique='Lean 4 proof (fuel induction over the universe hierarchy; counting argument over partitions) + model↔code correspondence of the cells pot_fill creates + Lean point monitor through the hierarchy',
